@@ -130,7 +130,7 @@ def ground_fallback(hyps, goal, timeout_ms):
     qs = [h for h in hyps if _has_q(h)]
     cur = list(qf) + [ng]
     insts = []
-    for rnd in range(2):
+    for rnd in range(3):
         terms = _ground_terms(cur + insts)
         insts = []
         for h in qs:
@@ -200,7 +200,23 @@ def discharge(ob, z3_timeout_ms=10000, cvc5_timeout_s=30, cross_check=False, exp
         ob.status, ob.backend = "unsat", "z3-ground-instances"
         return ob
     if gr == z3.sat:
-        ob.status, ob.backend = "sat", "z3-ground-instances"
+        # a counter-model of the *weakened* VC only: try hard to refute (or confirm) it on the full VC before reporting it
+        for cfg in (False, True):
+            s = mk(cfg)
+            s.set("timeout", z3_timeout_ms * (2 if not cfg else 3))
+            r = s.check()
+            if r == z3.unsat:
+                ob.status, ob.backend, ob.time = "unsat", "z3-retry" + ("-mbqi" if cfg else ""), time.time() - t0
+                return ob
+            if r == z3.sat:
+                ob.status, ob.backend, ob.model, ob.time = "sat", "z3-retry" + ("-mbqi" if cfg else ""), s.model(), time.time() - t0
+                return ob
+        cr, ct = run_cvc5(to_smt2(ob.hyps, goal), cvc5_timeout_s)
+        ob.cvc5 = cr
+        if cr == "unsat":
+            ob.status, ob.backend, ob.time = "unsat", "cvc5", time.time() - t0
+            return ob
+        ob.status, ob.backend, ob.time = "sat", ("cvc5+" if cr == "sat" else "") + "z3-ground-instances", time.time() - t0
         ob.model = gm
         return ob
     # model-based quantifier instantiation on the original VC: may still find a counter-model or a proof
